@@ -191,7 +191,7 @@ func (c *Cer) ProposeRaw(node int, round string, tasks []TaskSpec) string {
 // ReproposeChanged posts a proposal that re-uses the batch identifier and the
 // message identifiers of the batch at board offset off, with every explicit
 // payload replaced by a fresh one (a corrected file proposed again).
-func (c *Cer) ReproposeChanged(node int, off uint64) bool {
+func (c *Cer) ReproposeChanged(node int, off uint64, newBatchID ...bool) bool {
 	w := c.W
 	n := w.Nodes[node]
 	var old requests.SigningBatchProposalStartRequest
@@ -217,7 +217,12 @@ func (c *Cer) ReproposeChanged(node int, off uint64) bool {
 			pid = id
 		}
 	}
-	req := requests.SigningBatchProposalStartRequest{BatchID: old.BatchID, ParticipantId: pid, CreatedAt: time.Now(), SigningTasks: sts}
+	bid := old.BatchID
+	if len(newBatchID) > 0 && newBatchID[0] {
+		// a new batch that re-uses the message identifiers (and file names) of a finished one
+		bid = uuid.New().String()
+	}
+	req := requests.SigningBatchProposalStartRequest{BatchID: bid, ParticipantId: pid, CreatedAt: time.Now(), SigningTasks: sts}
 	data, _ := json.Marshal(req)
 	m := storage.Message{DkgRoundID: round, Event: string(sif.EventSigningStart), Data: data, SenderAddr: n.Name}
 	m.Signature = ed25519.Sign(n.Priv, m.Bytes())
